@@ -9,6 +9,7 @@ for t in BasicTests BuildSystemTests CAPITests CASTests CoreTests EvoTests Ninja
   out=$(cd "$B" && timeout 900 ./bin/$t 2>&1); r=$?
   p=$(echo "$out" | grep -c '^\[       OK \]')
   f=$(echo "$out" | grep -c '^\[  FAILED  \].*[^:]$' )
+  echo "$out" | grep -E '^\[ +(OK|FAILED) +\]' | grep -v ' tests\?' 
   echo "$t: rc=$r ok=$p"
   total=$((total+p))
   if [ $r -ne 0 ]; then rc=1; echo "$out" | grep -E 'FAILED|Failure' | head -20; fi
